@@ -1,0 +1,215 @@
+//go:build verif
+
+// Contracts for govc (/verif): C23 "Only queueing makes a cached transaction eligible for proposal" (storage/badger_cache.go).
+// Comment-only file. T-KV vocabulary, key-space conventions: zz_contracts_c03_verif.go; iterator model: /verif/govc/trusted/badger.spec.
+
+package storage
+
+//@ -- ═════════ key space of the cache DB ═════════
+//@ --   CACHETRANSACTIONQUEUE | be64(ts) | hash     the scheduling record (one per queueing), kind 10, 21 + 8 + 32 = 61 bytes
+//@ --   CACHETRANSACTIONORDER | hash                "is queued" marker, kind 11
+//@ --   CACHETRANSACTIONPAYLOAD | hash              the stored body, kind 12
+//@ -- ASSUMED like the key space of zz_contracts_c03_verif.go: the three prefixes differ at byte 16 ('Q', 'O', 'P'), so they are prefix-free and
+//@ -- an ORDER/PAYLOAD key does not carry the QUEUE prefix; widths are fixed, so the constructors are injective and parsing inverts them
+//@ -- (keynum = ts, keyhid = id of the 32 hash bytes); bytes [29, 61) of a queue key are the hash (kvsub).
+//@ uninterp QueueKeyId(ts mathint, h mathint) mathint
+//@ uninterp OrderKeyId(h mathint) mathint
+//@ uninterp PayloadKeyId(h mathint) mathint
+//@ axiom forall ts, h mathint :: {QueueKeyId(ts, h)} keykind(QueueKeyId(ts, h)) == 10 && keyhid(QueueKeyId(ts, h)) == h && badger.keylen(QueueKeyId(ts, h)) == 61 && kvsub(QueueKeyId(ts, h), 29, 61) == h &&
+//@     badger.keypfx(QueueKeyId(ts, h), strkey(cachePrefixTransactionQueue)) == 0 && (0 <= ts && ts < 18446744073709551616 ==> keynum(QueueKeyId(ts, h)) == ts)
+//@ axiom forall h mathint :: {OrderKeyId(h)} keykind(OrderKeyId(h)) == 11 && keyhid(OrderKeyId(h)) == h && badger.keypfx(OrderKeyId(h), strkey(cachePrefixTransactionQueue)) != 0
+//@ axiom forall h mathint :: {PayloadKeyId(h)} keykind(PayloadKeyId(h)) == 12 && keyhid(PayloadKeyId(h)) == h && badger.keypfx(PayloadKeyId(h), strkey(cachePrefixTransactionQueue)) != 0
+//@ spec QK(ts mathint, h crypto.Hash) mathint = QueueKeyId(ts, kvval(h))
+//@ spec OK(h crypto.Hash) mathint = OrderKeyId(kvval(h))
+//@ spec PK(h crypto.Hash) mathint = PayloadKeyId(kvval(h))
+//@ spec IsQueueKey(k mathint) bool = k == QueueKeyId(keynum(k), keyhid(k)) && 0 <= keynum(k) && keynum(k) < 18446744073709551616
+
+//@ assume func cacheTransactionCacheKey
+//@   modifies nothing
+//@   ensures fresh(result) && len(result) > 0 && kvkey(result) == PK(hash)
+//@ assume func cacheTransactionOrderKey
+//@   modifies nothing
+//@   ensures fresh(result) && len(result) > 0 && kvkey(result) == OK(hash)
+//@ -- the queue key of (0, zero hash) is the LEAST queue key (all-zero suffix after the common prefix): where CacheRetrieveTransactions seeks to
+//@ assume func cacheTransactionQueueKey
+//@   modifies nothing
+//@   ensures fresh(result) && len(result) > 0 && kvkey(result) == QK(ts, hash)
+//@   ensures [least] ts == 0 && !hash.HasValue() ==> forall t2, h2 mathint :: {badger.keylt(QueueKeyId(t2, h2), kvkey(result))} !badger.keylt(QueueKeyId(t2, h2), kvkey(result))
+
+//@ -- ═════════ abstract state (Q, O, P) of the cache DB ═════════
+//@ spec Body(t badger.Txn, h crypto.Hash) mathint = badger.kvget(t, PK(h))                 -- id of the stored body, 0 = none
+//@ spec Marked(t badger.Txn, h crypto.Hash) bool = badger.kvget(t, OK(h)) != 0           -- the "is queued" marker
+//@ spec DbBody(d badger.DB, h crypto.Hash) mathint = badger.dbget(d, PK(h))
+//@ spec DbMarked(d badger.DB, h crypto.Hash) bool = badger.dbget(d, OK(h)) != 0
+//@ -- DbQueued(d, h): some scheduling record for h exists -- exactly what CacheRetrieveTransactions iterates over
+//@ spec DbQueued(d badger.DB, h crypto.Hash) bool = exists ts mathint :: {QueueKeyId(ts, kvval(h))} 0 <= ts && ts < 18446744073709551616 && badger.dbget(d, QK(ts, h)) != 0
+//@ spec CacheOK(s *BadgerStore) bool = s != nil && s.cacheDB != nil && s.custom != nil
+
+//@ -- ═════════ reading a body ═════════
+//@ func (s *BadgerStore) cacheReadTransaction
+//@   property C23
+//@   requires txn != nil
+//@   modifies nothing
+//@   ensures [absent] err == nil && result0 == nil ==> Body(*txn, tx) == 0
+//@   ensures [body] err == nil && result0 != nil ==> Body(*txn, tx) != 0 && common.TxSrc(result0) == Body(*txn, tx) && fresh(result0)
+
+//@ func (s *BadgerStore) CacheGetTransaction
+//@   property C23
+//@   requires s != nil && s.cacheDB != nil
+//@   modifies nothing
+//@   ensures [absent] err == nil && result0 == nil ==> DbBody(*s.cacheDB, hash) == 0
+//@   ensures [body] err == nil && result0 != nil ==> DbBody(*s.cacheDB, hash) != 0 && common.TxSrc(result0) == DbBody(*s.cacheDB, hash)
+
+//@ -- ═════════ storing a body: "never by only storing its body" ═════════
+//@ -- cacheStoreTransaction touches the PAYLOAD record of tx's hash and nothing else: no scheduling record, no marker ([only-body]).
+//@ func (s *BadgerStore) cacheStoreTransaction
+//@   property C23
+//@   requires CacheOK(s) && tx != nil
+//@   requires [decoded] common.DecodedTx(&tx.SignedTransaction) -- PayloadHash/Marshal preconditions: transactions reach the cache decoded and validated (kernel/queue.go)
+//@   modifies *s.cacheDB, tx.hash, tx.pmbytes
+//@   ensures [atomic] err != nil ==> *s.cacheDB == old(*s.cacheDB)
+//@   ensures [only-body] forall k mathint :: {badger.dbget(*s.cacheDB, k)} k != PK(tx.hash) ==> badger.dbget(*s.cacheDB, k) == old(badger.dbget(*s.cacheDB, k))
+//@   ensures [stored] err == nil ==> DbBody(*s.cacheDB, tx.hash) != 0
+//@   ensures [body-hash] let H == tx.hash in err == nil && old(DbBody(*s.cacheDB, H)) == 0 ==> common.TxHashOfVal(DbBody(*s.cacheDB, H)) == H
+
+//@ -- ═════════ queueing ═════════
+//@ -- cacheQueueTransaction: already marked ==> nothing changes; otherwise the marker, the body and ONE new scheduling record (timestamped
+//@ -- by the wall clock) are written together ([queued] names the record through an existential over its timestamp). Nothing but these
+//@ -- three records of tx's hash changes. A Get error other than NotFound is treated like "not marked" by the code.
+//@ func (s *BadgerStore) cacheQueueTransaction
+//@   property C23
+//@   requires CacheOK(s) && tx != nil
+//@   requires [decoded] common.DecodedTx(&tx.SignedTransaction)
+//@   modifies *s.cacheDB, tx.hash, tx.pmbytes
+//@   ensures [atomic] err != nil ==> *s.cacheDB == old(*s.cacheDB)
+//@   ensures [marked] err == nil ==> DbMarked(*s.cacheDB, tx.hash)
+//@   ensures [already] let H == tx.hash in old(DbMarked(*s.cacheDB, H)) ==> err != nil || *s.cacheDB == old(*s.cacheDB) || (DbBody(*s.cacheDB, H) != 0 && DbQueued(*s.cacheDB, H))
+//@   ensures [queued] let H == tx.hash in err == nil && !old(DbMarked(*s.cacheDB, H)) ==> DbBody(*s.cacheDB, H) != 0 && common.TxHashOfVal(DbBody(*s.cacheDB, H)) == H && DbQueued(*s.cacheDB, H)
+//@   ensures [frame] forall k mathint :: {badger.dbget(*s.cacheDB, k)} keyhid(k) != kvval(tx.hash) || (keykind(k) != 10 && keykind(k) != 11 && keykind(k) != 12) ==> badger.dbget(*s.cacheDB, k) == old(badger.dbget(*s.cacheDB, k))
+//@   ensures [only-adds] forall k mathint :: {badger.dbget(*s.cacheDB, k)} old(badger.dbget(*s.cacheDB, k)) != 0 ==> badger.dbget(*s.cacheDB, k) != 0
+
+//@ -- ═════════ removal: "removal deletes the body" ═════════
+//@ -- One Update per batch; the closure deletes the body and the marker of hashes[0..min(len-1, batch)] (note the `i == batch` test AFTER
+//@ -- the deletes: 101 hashes per full batch, so hash number `batch` is deleted twice -- harmless).
+//@ func (s *BadgerStore) CacheRemoveTransactions$1
+//@   property C23
+//@   requires txn != nil && iscell(txn) && batch == 100
+//@   modifies *txn
+//@   ensures [removed] err == nil ==> forall j int :: {hashes[j]} 0 <= j && j < len(hashes) && j <= batch ==> Body(*txn, hashes[j]) == 0 && !Marked(*txn, hashes[j])
+//@   ensures [only-deleted] forall k mathint :: {badger.kvget(*txn, k)} badger.kvget(*txn, k) == old(badger.kvget(*txn, k)) || (badger.kvget(*txn, k) == 0 && (keykind(k) == 11 || keykind(k) == 12))
+//@   loop 0 invariant [removed] forall j int :: {hashes[j]} 0 <= j && j <= rangeindex ==> Body(*txn, hashes[j]) == 0 && !Marked(*txn, hashes[j])
+//@   loop 0 invariant [only-deleted] forall k mathint :: {badger.kvget(*txn, k)} badger.kvget(*txn, k) == old(badger.kvget(*txn, k)) || (badger.kvget(*txn, k) == 0 && (keykind(k) == 11 || keykind(k) == 12))
+//@   loop 0 invariant [bound] rangeindex < batch && batch == 100
+
+//@ -- CacheRemoveTransactions: every hash of the list loses its body and its marker (scheduling records are left to the next retrieval,
+//@ -- which finds no body and returns nothing for them); nothing is ever written, only PAYLOAD/ORDER records are deleted. `cur_hashes` is the
+//@ -- current value of the (captured, re-sliced) parameter: a suffix of the original list whose earlier part is done.
+//@ func (s *BadgerStore) CacheRemoveTransactions
+//@   property C23
+//@   requires s != nil && s.cacheDB != nil
+//@   modifies *s.cacheDB
+//@   ensures [removed] err == nil ==> forall j int :: {hashes[j]} 0 <= j && j < len(hashes) ==> DbBody(*s.cacheDB, hashes[j]) == 0 && !DbMarked(*s.cacheDB, hashes[j])
+//@   ensures [only-deleted] forall k mathint :: {badger.dbget(*s.cacheDB, k)} badger.dbget(*s.cacheDB, k) == old(badger.dbget(*s.cacheDB, k)) || (badger.dbget(*s.cacheDB, k) == 0 && (keykind(k) == 11 || keykind(k) == 12))
+//@   loop 0 invariant [suffix] len(cur_hashes) <= len(hashes) && batch == 100 && cur_hashes == hashes[len(hashes) - len(cur_hashes):]
+//@   loop 0 invariant [done] forall j int :: {hashes[j]} 0 <= j && j < len(hashes) - len(cur_hashes) ==> DbBody(*s.cacheDB, hashes[j]) == 0 && !DbMarked(*s.cacheDB, hashes[j])
+//@   loop 0 invariant [only-deleted] forall k mathint :: {badger.dbget(*s.cacheDB, k)} badger.dbget(*s.cacheDB, k) == old(badger.dbget(*s.cacheDB, k)) || (badger.dbget(*s.cacheDB, k) == 0 && (keykind(k) == 11 || keykind(k) == 12))
+//@   -- proof guidance (checked, then assumed): the closure's [removed] clause re-indexed to the original list; the body names the element
+//@   -- cur_hashes[j - D] of the current window explicitly so that the solver instantiates the closure's clause there
+//@   hint after Update [batch] let D == len(hashes) - len(cur_hashes) in callresult == nil ==> forall j int :: {hashes[j]} D <= j && j < len(hashes) && j - D <= 100 ==>
+//@       DbBody(*s.cacheDB, cur_hashes[j - D]) == 0 && !DbMarked(*s.cacheDB, cur_hashes[j - D])
+
+//@ -- ═════════ retrieval ═════════
+//@ -- Representation invariants of the cache DB (root preconditions of the retrieval; established by cacheQueueTransaction / cacheStoreTransaction,
+//@ -- the only writers of these prefixes -- [queued]/[body-hash] above):
+//@ --   QueueOK  every entry whose key starts with CACHETRANSACTIONQUEUE is a scheduling record QUEUE|be64(ts)|hash
+//@ --   BodyOK   the body stored under PAYLOAD|h is (the encoding of) a transaction whose payload hash is h
+//@ spec QueueOK(t badger.Txn) bool = forall k mathint :: {badger.kvget(t, k)} badger.kvget(t, k) != 0 && badger.keypfx(k, strkey(cachePrefixTransactionQueue)) == 0 ==> IsQueueKey(k)
+//@ spec BodyOK(t badger.Txn) bool = forall h crypto.Hash :: {badger.kvget(t, PK(h))} badger.kvget(t, PK(h)) != 0 ==> common.TxHashOfVal(badger.kvget(t, PK(h))) == h
+//@ -- THash(v): the payload hash of (the encoding) the returned object v was decoded from
+//@ spec THash(v *common.VersionedTransaction) crypto.Hash = common.TxHashOfVal(common.TxSrc(v))
+//@ -- Vis(it, c, k): k is a scheduling record the scan has passed (present in the iterator's snapshot, strictly before the cursor c; c == 0: scan finished)
+//@ spec Vis(it *badger.Iterator, c mathint, k mathint) bool = IsQueueKey(k) && badger.itget(it, k) != 0 && (c == 0 || badger.keylt(k, c))
+
+//@ -- The closure run by CacheRetrieveTransactions inside ONE badger Update; it writes *txn and the captured result variable txs.
+//@ -- All clauses are about a successful run (err == nil); on an error Update rolls the transaction back and the caller (kernel/queue.go)
+//@ -- drops the returned slice.
+//@ func (s *BadgerStore) CacheRetrieveTransactions$1
+//@   property C23
+//@   mode append-back -- the existential witnesses of [covered]/[filter] are elements of `processed` before the two appends of an iteration
+//@   requires txn != nil && iscell(txn) && s != nil && len(txs) == 0 && cap(txs) == 0
+//@   requires [queue-ok] QueueOK(*txn)
+//@   requires [body-ok] BodyOK(*txn)
+//@   modifies *txn, txs
+//@   ensures [limit] len(txs) <= limit || len(txs) == 0
+//@   ensures [bodies] err == nil ==> forall i int :: {txs[i]} 0 <= i && i < len(txs) ==> let T == THash(txs[i]) in txs[i] != nil && common.TxSrc(txs[i]) == old(Body(*txn, T)) && common.TxSrc(txs[i]) != 0
+//@   ensures [distinct] err == nil ==> forall i, j int :: {txs[i], txs[j]} 0 <= i && i < j && j < len(txs) ==> THash(txs[i]) != THash(txs[j])
+//@   ensures [consumed] err == nil ==> forall i int :: {txs[i]} 0 <= i && i < len(txs) ==> let T == THash(txs[i]) in exists ts mathint :: {QueueKeyId(ts, kvval(T))} 0 <= ts && ts < 18446744073709551616 &&
+//@       old(badger.kvget(*txn, QK(ts, T))) != 0 && badger.kvget(*txn, QK(ts, T)) == 0
+//@   ensures [requeue-possible] err == nil ==> forall i int :: {txs[i]} 0 <= i && i < len(txs) ==> !Marked(*txn, THash(txs[i]))
+//@   ensures [body-kept] err == nil ==> forall k mathint :: {badger.kvget(*txn, k)} keykind(k) != 10 && keykind(k) != 11 ==> badger.kvget(*txn, k) == old(badger.kvget(*txn, k))
+//@   ensures [only-deleted] err == nil ==> forall k mathint :: {badger.kvget(*txn, k)} badger.kvget(*txn, k) == old(badger.kvget(*txn, k)) || badger.kvget(*txn, k) == 0
+//@   ensures [pairs] err == nil ==> forall k mathint :: {badger.kvget(*txn, k)} keykind(k) == 10 && old(badger.kvget(*txn, k)) != 0 && badger.kvget(*txn, k) == 0 ==> badger.kvget(*txn, OrderKeyId(keyhid(k))) == 0
+//@   loop 0 invariant [state] *txn == old(*txn) && filter != nil && (len(txs) <= limit || len(txs) == 0)
+//@   loop 0 invariant [fresh] (cap(txs) == 0 || fresh(txs)) && (cap(processed) == 0 || fresh(processed))
+//@   loop 0 invariant [cursor] badger.itkey(*it) != 0 ==> IsQueueKey(badger.itkey(*it)) && badger.itget(it, badger.itkey(*it)) != 0
+//@   -- `processed` lists scheduling records the scan has passed and ORDER markers, in blocks that are not the local array `hash`
+//@   loop 0 invariant [kinds] forall m int :: {processed[m]} 0 <= m && m < len(processed) ==> arr(processed[m]) != &hash && (keykind(kvkey(processed[m])) == 10 || keykind(kvkey(processed[m])) == 11) &&
+//@       (keykind(kvkey(processed[m])) == 10 ==> IsQueueKey(kvkey(processed[m])) && (badger.itkey(*it) == 0 || badger.keylt(kvkey(processed[m]), badger.itkey(*it))))
+//@   -- every scheduling record the scan has passed is listed, and so is the marker of its hash
+//@   loop 0 invariant [covered-q] forall k mathint :: {badger.itget(it, k)} Vis(it, badger.itkey(*it), k) ==> exists m int :: {processed[m]} 0 <= m && m < len(processed) && kvkey(processed[m]) == k
+//@   loop 0 invariant [covered-o] forall k mathint :: {badger.itget(it, k)} Vis(it, badger.itkey(*it), k) ==> exists m int :: {processed[m]} 0 <= m && m < len(processed) && kvkey(processed[m]) == OrderKeyId(keyhid(k))
+//@   -- a hash is in the duplicate filter only if a scheduling record of it has been passed
+//@   loop 0 invariant [filter] forall h crypto.Hash :: {filter[h]} has(filter, h) && filter[h] ==> exists ts mathint :: {QueueKeyId(ts, kvval(h))} 0 <= ts && ts < 18446744073709551616 && Vis(it, badger.itkey(*it), QK(ts, h))
+//@   loop 0 invariant [seen] forall i int :: {txs[i]} 0 <= i && i < len(txs) ==> txs[i] != nil && has(filter, THash(txs[i])) && filter[THash(txs[i])]
+//@   loop 0 invariant [bodies] forall i int :: {txs[i]} 0 <= i && i < len(txs) ==> common.TxSrc(txs[i]) == Body(*txn, THash(txs[i])) && common.TxSrc(txs[i]) != 0
+//@   loop 0 invariant [distinct] forall i, j int :: {txs[i], txs[j]} 0 <= i && i < j && j < len(txs) ==> THash(txs[i]) != THash(txs[j])
+//@   loop 1 invariant [deleted] forall m int :: {processed[m]} 0 <= m && m <= rangeindex ==> badger.kvget(*txn, kvkey(processed[m])) == 0
+//@   loop 1 invariant [frame] forall k mathint :: {badger.kvget(*txn, k)} badger.kvget(*txn, k) == old(badger.kvget(*txn, k)) || (exists m int :: {processed[m]} 0 <= m && m <= rangeindex && kvkey(processed[m]) == k)
+
+//@ -- CacheRetrieveTransactions: ONE badger Update around the closure above; the clauses are the closure's, read over the committed state.
+//@ --  * "eligible only by being queued" / "each queueing is returned by at most one retrieval": [consumed] every returned transaction had a
+//@ --    scheduling record, and that record is gone afterwards; cacheStoreTransaction [only-body] never creates one.
+//@ --  * "returns each transaction at most once and no more than the requested limit": [distinct] (by payload hash), [limit].
+//@ --  * "retrieval keeps the stored body": [body-kept] (nothing but QUEUE/ORDER records changes) and [bodies] (what is returned is the stored body).
+//@ --  * "re-queueing after retrieval makes the transaction eligible again": [requeue-possible] the marker is gone, so the next
+//@ --    cacheQueueTransaction takes its [queued] branch and writes a new scheduling record.
+//@ func (s *BadgerStore) CacheRetrieveTransactions
+//@   property C23
+//@   requires s != nil && s.cacheDB != nil
+//@   requires [queue-ok] forall k mathint :: {badger.dbget(*s.cacheDB, k)} badger.dbget(*s.cacheDB, k) != 0 && badger.keypfx(k, strkey(cachePrefixTransactionQueue)) == 0 ==> IsQueueKey(k)
+//@   requires [body-ok] forall h crypto.Hash :: {badger.dbget(*s.cacheDB, PK(h))} badger.dbget(*s.cacheDB, PK(h)) != 0 ==> common.TxHashOfVal(badger.dbget(*s.cacheDB, PK(h))) == h
+//@   modifies *s.cacheDB
+//@   ensures [atomic] err != nil ==> *s.cacheDB == old(*s.cacheDB)
+//@   ensures [limit] len(result0) <= limit || len(result0) == 0
+//@   ensures [bodies] err == nil ==> forall i int :: {result0[i]} 0 <= i && i < len(result0) ==> let T == THash(result0[i]) in result0[i] != nil && common.TxSrc(result0[i]) == old(DbBody(*s.cacheDB, T)) && common.TxSrc(result0[i]) != 0
+//@   ensures [distinct] err == nil ==> forall i, j int :: {result0[i], result0[j]} 0 <= i && i < j && j < len(result0) ==> THash(result0[i]) != THash(result0[j])
+//@   ensures [consumed] err == nil ==> forall i int :: {result0[i]} 0 <= i && i < len(result0) ==> let T == THash(result0[i]) in exists ts mathint :: {QueueKeyId(ts, kvval(T))} 0 <= ts && ts < 18446744073709551616 &&
+//@       old(badger.dbget(*s.cacheDB, QK(ts, T))) != 0 && badger.dbget(*s.cacheDB, QK(ts, T)) == 0
+//@   ensures [requeue-possible] err == nil ==> forall i int :: {result0[i]} 0 <= i && i < len(result0) ==> !DbMarked(*s.cacheDB, THash(result0[i]))
+//@   ensures [body-kept] forall k mathint :: {badger.dbget(*s.cacheDB, k)} keykind(k) != 10 && keykind(k) != 11 ==> badger.dbget(*s.cacheDB, k) == old(badger.dbget(*s.cacheDB, k))
+//@   ensures [only-deleted] forall k mathint :: {badger.dbget(*s.cacheDB, k)} badger.dbget(*s.cacheDB, k) == old(badger.dbget(*s.cacheDB, k)) || badger.dbget(*s.cacheDB, k) == 0
+//@   ensures [pairs] forall k mathint :: {badger.dbget(*s.cacheDB, k)} keykind(k) == 10 && old(badger.dbget(*s.cacheDB, k)) != 0 && badger.dbget(*s.cacheDB, k) == 0 ==> badger.dbget(*s.cacheDB, OrderKeyId(keyhid(k))) == 0
+
+//@ -- ═════════ the public entry points: up to three attempts while the commit reports a conflict ═════════
+//@ -- A failed attempt leaves the cache DB unchanged ([atomic] of the inner function), so the clauses of the last attempt hold for the whole call.
+//@ func (s *BadgerStore) CacheStoreTransaction
+//@   property C23
+//@   requires CacheOK(s) && tx != nil
+//@   requires [decoded] common.DecodedTx(&tx.SignedTransaction)
+//@   modifies *s.cacheDB, tx.hash, tx.pmbytes
+//@   ensures [atomic] err != nil ==> *s.cacheDB == old(*s.cacheDB)
+//@   ensures [only-body] forall k mathint :: {badger.dbget(*s.cacheDB, k)} k != PK(tx.hash) ==> badger.dbget(*s.cacheDB, k) == old(badger.dbget(*s.cacheDB, k))
+//@   ensures [stored] err == nil ==> DbBody(*s.cacheDB, tx.hash) != 0
+//@   loop 0 invariant rangeint_iter < 3 && CacheOK(s) && common.DecodedTx(&tx.SignedTransaction) && *s.cacheDB == old(*s.cacheDB)
+
+//@ func (s *BadgerStore) CacheQueueTransaction
+//@   property C23
+//@   requires CacheOK(s) && tx != nil
+//@   requires [decoded] common.DecodedTx(&tx.SignedTransaction)
+//@   modifies *s.cacheDB, tx.hash, tx.pmbytes
+//@   ensures [atomic] err != nil ==> *s.cacheDB == old(*s.cacheDB)
+//@   ensures [marked] err == nil ==> DbMarked(*s.cacheDB, tx.hash)
+//@   ensures [queued] let H == tx.hash in err == nil && !old(DbMarked(*s.cacheDB, H)) ==> DbBody(*s.cacheDB, H) != 0 && common.TxHashOfVal(DbBody(*s.cacheDB, H)) == H && DbQueued(*s.cacheDB, H)
+//@   ensures [frame] forall k mathint :: {badger.dbget(*s.cacheDB, k)} keyhid(k) != kvval(tx.hash) || (keykind(k) != 10 && keykind(k) != 11 && keykind(k) != 12) ==> badger.dbget(*s.cacheDB, k) == old(badger.dbget(*s.cacheDB, k))
+//@   ensures [only-adds] forall k mathint :: {badger.dbget(*s.cacheDB, k)} old(badger.dbget(*s.cacheDB, k)) != 0 ==> badger.dbget(*s.cacheDB, k) != 0
+//@   loop 0 invariant rangeint_iter < 3 && CacheOK(s) && common.DecodedTx(&tx.SignedTransaction) && *s.cacheDB == old(*s.cacheDB)
